@@ -1,20 +1,18 @@
 """C04 — cancel() suppresses the whole trace and nothing else."""
-import known as K
 import seqcheck
 import seqrun
 from props import c09
 
 
 def knobs(r, i):
-    return {"cancelable": i % 3 != 2, "threads": 1 + i % 3, "cycle_density": 1 + i % 3, "multi": i % 2 == 0}
+    return {"cancelable": i % 3 != 2, "threads": 1 + i % 3, "cycle_density": 1 + i % 3, "multi": i % 2 == 0, "stepped": i % 2 == 1}
 
 
 def run(v, tier, seed, replay):
-    cases, impl, model = seqcheck.run(v, tier, seed, replay, "C04", ["C04"], tree_oracles=["no_panic", "exactly_once", "tree", "attachments", "retained"], knobs=knobs, known=K.d14_known("C04"),
-                 extra_cases=lambda r: [K.d14_case("C04", ["no_panic", "exactly_once"])],
+    cases, impl, model = seqcheck.run(v, tier, seed, replay, "C04", ["C04"], tree_oracles=["no_panic", "exactly_once", "tree", "attachments", "retained"], knobs=knobs,
                  n_quick=(600, 100), n_thorough=(60000, 5000),
                  assumptions=["queue-full episodes around cancel/finish are exercised in the C09 tier (forced commands FIFO, D2 fix)",
-                              "a thread exiting with parked commands and a full queue can lose the drop (open finding D3); a start drained after its drop re-creates the entry (open finding D4)"])
+                              "a thread exiting with parked commands and a full queue can lose the drop (open finding D3, outside the stated property)"])
     # cancel()/finish on a really full 10240-slot queue (fault quantifier of C04)
     if not replay and not v.violations:
         scen = {"cancel-on-full-1": c09.sc_cancel_on_full(1), "cancel-on-full-0": c09.sc_cancel_on_full(0)}
